@@ -2,6 +2,8 @@
 
 package consensus
 
+import "io"
+
 // Export shim for the /verif WAL check (C15, package c15). Re-exports only.
 
 // VerifC15RepairWalFile is the repair step State.OnStart runs when catchupReplay reports a DataCorruptionError
@@ -10,3 +12,22 @@ func VerifC15RepairWalFile(src, dst string) error { return repairWalFile(src, ds
 
 // VerifC15MaxMsgSizeBytes is the framing limit shared by WALEncoder and WALDecoder.
 const VerifC15MaxMsgSizeBytes = maxMsgSizeBytes
+
+// verifC15Writer sits between the WAL's encoder and its autofile group and forwards every Write unchanged; after the
+// group's Write has returned (its mutex is free again - the point where the group's ticker goroutine may run
+// checkHeadSizeLimit / RotateFile) it calls the harness.
+type verifC15Writer struct {
+	wr    io.Writer
+	after func()
+}
+
+func (w verifC15Writer) Write(p []byte) (int, error) {
+	n, err := w.wr.Write(p)
+	w.after()
+	return n, err
+}
+
+// VerifC15AfterEachGroupWrite interposes verifC15Writer (call before Start).
+func (wal *BaseWAL) VerifC15AfterEachGroupWrite(after func()) {
+	wal.enc = NewWALEncoder(verifC15Writer{wr: wal.group, after: after})
+}
